@@ -23,9 +23,11 @@ func init() {
 			{ID: "R13a", Floor: 3, Doc: "hash gate + full consumption of the streamed block; index-codec decision on every success path", Run: ruleR13a},
 			{ID: "R13b", Floor: 8, Doc: "no dropped/swallowed error in Inspect; loop exits", Run: ruleR13b},
 			{ID: "R13c", Floor: 9, Doc: "accumulator idioms bound to the right quantities", Run: ruleR13c},
+			{ID: "R13g", Floor: 1, Doc: "RootsPresent counts every root at most once: the increment of the roots-present counter consumes a per-root latch (seen flag set / set entry deleted) that also gates it, so a root block stored twice cannot stand in for a missing root", Run: ruleR13g},
 			{ID: "R13e", Floor: 2, Doc: "the payload header is consumed by decoding it from the data reader; the hasher is given the CID's own digest length", Run: ruleR13e},
 			{ID: "R13f", Floor: 4, Doc: "index codec prefix read with the same varint family it is written with (= R11c)", Run: ruleR11c},
 			{ID: "R13d", Floor: 20, Doc: "section lengths bounded by the section limit, header by the header limit (= R09c)", Run: ruleR09c},
+			{ID: "R13h", Floor: 2, Doc: "Inspect scans exactly the payload window DataOffset..DataOffset+DataSize (= R10d)", Run: ruleR10d},
 		},
 	})
 }
@@ -84,7 +86,7 @@ func ruleR13a(c *Ctx, r *Report) {
 			db := has[0].From
 			// version != 1 short-circuit sits in a predecessor: cut both the HasIndex block and the edge that skips it
 			for i := range db.Succs {
-				cut[Edge{db, i}] = true
+				cut[Edge{From: db, Succ: i}] = true
 			}
 			v1 := cmpEdges(fn, func(v ssa.Value) bool { return loadsField(canon(v), modV2, "Stats", "Version") }, func(v ssa.Value) bool { k, ok := constInt(v); return ok && k == 1 }, "eq")
 			for _, e := range v1 {
@@ -435,4 +437,149 @@ func ruleR13e(c *Ctx, r *Report) {
 		}
 		r.Check(bad == "", key, c.Pos(fn.Pos()), "SumStream(reader, cp.MhType, cp.MhLength | -1 for identity)", bad)
 	}
+}
+
+func addsFeeding(v ssa.Value) []*ssa.BinOp {
+	var out []*ssa.BinOp
+	seen := map[ssa.Value]bool{}
+	var walk func(v ssa.Value, d int)
+	walk = func(v ssa.Value, d int) {
+		if v == nil || seen[v] || d > 12 {
+			return
+		}
+		seen[v] = true
+		switch x := v.(type) {
+		case *ssa.Convert:
+			walk(x.X, d+1)
+		case *ssa.Phi:
+			for _, e := range x.Edges {
+				walk(e, d+1)
+			}
+		case *ssa.BinOp:
+			if x.Op == token.ADD {
+				if k, ok := constInt(x.Y); ok && k == 1 {
+					out = append(out, x)
+				} else {
+					// `count += n`: the steps are whatever increments n
+					walk(x.Y, d+1)
+				}
+				walk(x.X, d+1)
+			}
+		case *ssa.UnOp:
+			if al, ok := x.X.(*ssa.Alloc); ok && x.Op == token.MUL {
+				for _, st := range storesTo(al) {
+					walk(st.Val, d+1)
+				}
+			}
+		}
+	}
+	walk(v, 0)
+	return out
+}
+
+func ruleR13g(c *Ctx, r *Report) {
+	fn, err := c.Func(modV2, "Reader", "Inspect")
+	if err != nil {
+		r.InfraFail("%v", err)
+		return
+	}
+	key := "roots-present-latch@" + fnKey(fn)
+	var cmp *ssa.BinOp
+	eachInstr(fn, func(in ssa.Instruction) {
+		st, ok := in.(*ssa.Store)
+		if !ok {
+			return
+		}
+		fa, ok := st.Addr.(*ssa.FieldAddr)
+		if !ok || !fieldAddrIs(fa, modV2, "Stats", "RootsPresent") {
+			return
+		}
+		if b, ok := st.Val.(*ssa.BinOp); ok && b.Op == token.EQL {
+			cmp = b
+		}
+	})
+	if cmp == nil {
+		r.Exempt(key, c.Pos(fn.Pos()), "RootsPresent is not computed as `number of roots == counter`; the latch rule applies to counter-based implementations only")
+		return
+	}
+	isLen := func(v ssa.Value) bool {
+		cl, _ := strip(v).(*ssa.Call)
+		if cl == nil {
+			return false
+		}
+		b, ok := cl.Call.Value.(*ssa.Builtin)
+		return ok && b.Name() == "len"
+	}
+	counter := cmp.Y
+	if isLen(cmp.Y) {
+		counter = cmp.X
+	} else if !isLen(cmp.X) {
+		r.Exempt(key, c.Pos(cmp.Pos()), "RootsPresent does not compare a length with a counter")
+		return
+	}
+	incs := addsFeeding(counter)
+	if len(incs) == 0 {
+		r.Exempt(key, c.Pos(cmp.Pos()), "RootsPresent compares the number of roots with something that is not an incremented counter (e.g. the size of a set, which cannot count a root twice); the latch rule applies to counter-based implementations only")
+		return
+	}
+	container := func(in ssa.Instruction) ssa.Value {
+		switch x := in.(type) {
+		case *ssa.Store:
+			if ia, ok := x.Addr.(*ssa.IndexAddr); ok {
+				return canon(ia.X)
+			}
+		case *ssa.MapUpdate:
+			return canon(x.Map)
+		case *ssa.Call:
+			if b, ok := x.Call.Value.(*ssa.Builtin); ok && b.Name() == "delete" {
+				return canon(x.Call.Args[0])
+			}
+		}
+		return nil
+	}
+	bad := ""
+	for _, inc := range incs {
+		B := inc.Block()
+		var latch ssa.Value
+		for _, in := range B.Instrs {
+			if x := container(in); x != nil {
+				latch = x
+			}
+		}
+		if latch == nil {
+			bad = fmt.Sprintf("the counter is incremented at %s without consuming a per-root latch in the same step: a root whose block appears twice is counted twice and RootsPresent can be true although another root has no block", c.Pos(inc.Pos()))
+			continue
+		}
+		gated := false
+		for _, P := range fn.Blocks {
+			if len(P.Instrs) == 0 {
+				continue
+			}
+			iff, ok := P.Instrs[len(P.Instrs)-1].(*ssa.If)
+			if !ok {
+				continue
+			}
+			reads := false
+			for v := range flowSources(iff.Cond) {
+				switch x := v.(type) {
+				case *ssa.IndexAddr:
+					reads = reads || canon(x.X) == latch
+				case *ssa.Lookup:
+					reads = reads || canon(x.X) == latch
+				}
+			}
+			if !reads {
+				continue
+			}
+			for i := range P.Succs {
+				if !reach(fn, nil, EdgeSet{Edge{From: P, Succ: i}: true})[B] {
+					gated = true
+				}
+			}
+		}
+		if !gated {
+			bad = fmt.Sprintf("the increment at %s sets a latch but is not gated by it", c.Pos(inc.Pos()))
+		}
+	}
+	r.Check(bad == "", key, c.Pos(cmp.Pos()), fmt.Sprintf("%d increment(s), each gated by and consuming a per-root latch", len(incs)), bad)
 }
